@@ -56,6 +56,10 @@ def run(ctx):
         no_ref_escape(ctx, crate, tag)
         guarded_index(ctx, crate, crs, tag)
         ctx.guard("store-agreement" + tag, store_agreement, ctx, crate, crs, tag)
+        import c07
+        # a union resolves to the members it was interned with, in order: the sequence type appends and exposes everything
+        ctx.guard("union-members" + tag, c07.union_order, ctx, crate, crs, tag)
+        ctx.guard("union-members" + tag, c07.smallvec_order, ctx, crate, crs, tag, "union-members")
 
 
 def intern_memo(ctx, crate, crs, tag):
